@@ -225,6 +225,29 @@ def source_route(g, rg, cg, doc, viol, counts):
                      "combination": repr(got)[:200], "operands_combined": repr(want)[:200]})
 
 
+def twin_case(g, cg):
+    """A tree in which two leaves are == for the library's __eq__ but do NOT behave alike on the document (in_range with an int and
+    with an equal float bound: `range(1.0, 3)` raises, so the second is false everywhere), each in every operand position, next to
+    ordinary operands: a combination is pointwise in what ITS operands give, whatever equal-looking conditions were evaluated on
+    the same data before."""
+    r = g.r
+    d = r.choice([0, 1, 2, 5, -3])
+    items = [d, g.scalar(), d + 1, g.value(2, 3)]
+    r.shuffle(items)
+    doc = items if r.random() < 0.6 else {k: x for k, x in zip(["a", "b", 1, None], items)}
+    m = r.choice(["in_range", "in_range", "not_in_range"])
+    lo, hi = d - 1, d + 2
+    a = Leaf("Value", m, [lo, hi], {})
+    b = Leaf("Value", m, r.choice([[float(lo), hi], [lo, float(hi)], [float(lo), float(hi)]]), {})
+    if r.random() < 0.5:
+        a, b = b, a
+    t = Bin(r.choice(["and", "or", "xor"]), a, b)
+    for _ in range(r.choice([0, 1, 2])):
+        o = cg.tree(doc, depth=1, classes=["Value", "ValueLength", "ValueDataType"], null_p=0.2)
+        t = Bin(r.choice(["and", "or", "xor"]), t, o) if r.random() < 0.5 else Bin(r.choice(["and", "or", "xor"]), o, t)
+    return t, doc
+
+
 def run(tier, seed, model_ok, spec_ok, replay=None):
     g = Gen(seed)
     cg = CondGen(g)
@@ -258,6 +281,11 @@ def run(tier, seed, model_ok, spec_ok, replay=None):
             spec_route(sg, t, doc, spec_viol, counts)
             if g.r.random() < 0.3:
                 source_route(g, rg, cg, doc, spec_viol, counts)
+            if g.r.random() < 0.08:
+                tt, td = twin_case(g, cg)
+                cases.append(make_case(tt, td))
+                counts["twins"] += 1
+                spec_route(sg, tt, td, spec_viol, counts)
         cases = [c for c in cases if c]
         nh = 150 if tier == "quick" else 4000
         for _ in range(nh):
@@ -282,7 +310,7 @@ def run(tier, seed, model_ok, spec_ok, replay=None):
         "samples": [c.descr for c in cases[-3:]],
         "k_mismatch": [cases[i].descr for i in k_bad],
         "o_violations": [cases[i].descr for i in o_bad] + hist_viol + spec_viol,
-        "distribution": dict(dist, histories=hist_n, history_steps=hist_steps, spec_lists=counts["spec"], with_source_data=counts["source"]),
+        "distribution": dict(dist, histories=hist_n, history_steps=hist_steps, spec_lists=counts["spec"], with_source_data=counts["source"], equal_but_different_twins=counts["twins"]),
     }
     if err:
         res["k_mismatch"] = res["k_mismatch"] or [{"coq-eval-error": err}]
